@@ -129,6 +129,7 @@ func checkFormat(c *core.Ctx, format string, args map[string]string, viaConst bo
 		op = "formatconst"
 	}
 	k := kase{Op: op, Format: util.Q(format), Args: qmap(args)}
+	c.Note(func() interface{} { return k })
 	var vals []string
 	for _, v := range args {
 		vals = append(vals, v)
@@ -180,6 +181,7 @@ func checkFormat(c *core.Ctx, format string, args map[string]string, viaConst bo
 func checkAppend(c *core.Ctx, base, s string) {
 	c.Eval(1)
 	k := kase{Op: "append", Format: util.Q(base), Append: util.Q(s)}
+	c.Note(func() interface{} { return k })
 	if interesting(s) {
 		c.DistinctS(util.JSON(k))
 	}
@@ -220,6 +222,7 @@ var rfc3986 = regexp.MustCompile(`^(([^:/?#]+):)?(//([^/?#]*))?([^?#]*)(\?([^#]*
 func checkParams(c *core.Ctx, base string, params map[string]string) {
 	c.Eval(1)
 	k := kase{Op: "params", Format: util.Q(base), Args: qmap(params)}
+	c.Note(func() interface{} { return k })
 	var all []string
 	for a, v := range params {
 		all = append(all, a, v)
